@@ -62,6 +62,10 @@ func runC06(p *Prog, r *Report) {
 	if want("C06.7") {
 		ruleBaseLevel(p, r, "C06.7")
 	}
+	if want("C06.19") {
+		// a file number has one owner: the counter goes back only atomically (each file exists with ITS content)
+		ruleReuseFileNum(p, r, "C06.19")
+	}
 	if want("C06.18") {
 		ruleWritersCopyKeys(p, r, "C06.18")
 	}
